@@ -314,6 +314,7 @@ func (n *node) checkAlwaysSucceedsRecursion(t *Tree, visited map[*node]bool) boo
 type Tree struct {
 	Rules      map[string]*node
 	rulesCount map[string]uint
+	undefined  map[string]bool
 	node
 	inline, _switch, Ast bool
 	Strict               bool
@@ -564,6 +565,11 @@ func (t *Tree) link(countsForRule *[TypeLast]uint, n *node, counts *[TypeLast]ui
 	case TypeName:
 		name := n.String()
 		if _, ok := t.Rules[name]; !ok {
+			/* a stub, to be told apart from a rule defined with an empty body */
+			if t.undefined == nil {
+				t.undefined = make(map[string]bool)
+			}
+			t.undefined[name] = true
 			emptyRule := &node{Type: TypeRule, string: name, id: t.RulesCount}
 			implicitPush := &node{Type: TypeImplicitPush}
 			emptyRule.PushBack(implicitPush)
@@ -1311,7 +1317,7 @@ func (t *Tree) Compile(file string, args []string, out io.Writer) (err error) {
 			continue
 		}
 		expression := element.Front()
-		if implicit := expression.Front(); expression.GetType() == TypeNil || implicit.GetType() == TypeNil {
+		if expression.GetType() == TypeNil || t.undefined[element.String()] {
 			if element.String() != "PegText" {
 				t.warn(fmt.Errorf("rule '%v' used but not defined", element))
 			}
